@@ -2,10 +2,10 @@
    Property theorems only: each is closed by [exact] of a lemma from Proofs/, followed by
    Print Assumptions.  E_GD, GD_E, E_tk, tk_uv, ... are regenerated from
    MTfit/convert/moment_tensor_conversion.py on every run (Gen/Convert.v). *)
-From Coq Require Import Reals.
+From Coq Require Import Reals Lra.
 From MTV.Lib Require Import Base.
 From MTV.Gen Require Import Convert.
-From MTV.Proofs Require Import Conv_lune.
+From MTV.Proofs Require Import Conv_lune Conv_hudson Conv_stiffness Conv_cdc.
 Open Scope R_scope.
 
 (* lune coordinates do not depend on the order of the eigenvalues ... *)
@@ -39,3 +39,57 @@ Print Assumptions C14_double_couple_at_origin.
 Theorem C14_isotropic_at_poles : forall l, l <> 0 -> E_GD l l l = (0, sgn l * PI / 2).
 Proof. exact isotropic_at_poles. Qed.
 Print Assumptions C14_isotropic_at_poles.
+
+(* ---- Hudson coordinates: E_uv is the composition the code applies to every result, tk_uv (E_tk E) *)
+Theorem C14_hudson_permutation_invariant : forall a b c,
+  E_uv a c b = E_uv a b c /\ E_uv b a c = E_uv a b c /\ E_uv b c a = E_uv a b c /\
+  E_uv c a b = E_uv a b c /\ E_uv c b a = E_uv a b c.
+Proof. exact E_uv_permutation_invariant. Qed.
+Print Assumptions C14_hudson_permutation_invariant.
+
+Theorem C14_hudson_scale_invariant : forall k a b c, 0 < k -> 0 < a * a + b * b + c * c ->
+  E_uv (k * a) (k * b) (k * c) = E_uv a b c.
+Proof. exact E_uv_scale_invariant. Qed.
+Print Assumptions C14_hudson_scale_invariant.
+
+Theorem C14_hudson_bounds : forall a b c, 0 < a * a + b * b + c * c ->
+  Rabs (fst (E_uv a b c)) <= 4 / 3 /\ Rabs (snd (E_uv a b c)) <= 1.
+Proof. exact E_uv_bounds. Qed.
+Print Assumptions C14_hudson_bounds.
+
+Theorem C14_hudson_double_couple : forall l, 0 < l -> E_uv l 0 (- l) = (0, 0).
+Proof. exact hudson_double_couple. Qed.
+Print Assumptions C14_hudson_double_couple.
+
+Theorem C14_hudson_isotropic : forall l, l <> 0 -> E_uv l l l = (0, sgn l).
+Proof. exact hudson_isotropic. Qed.
+Print Assumptions C14_hudson_isotropic.
+
+Theorem C14_hudson_clvd : forall l, 0 < l -> E_uv (2 * l) (- l) (- l) = (-1, 0) /\ E_uv l l (- (2 * l)) = (1, 0).
+Proof. exact hudson_clvd. Qed.
+Print Assumptions C14_hudson_clvd.
+
+(* ---- potency tensor: whatever solves the system the code hands to numpy.linalg.solve is the tensor D with
+   c_ijkl D_kl = M_ij (all 21 constants arbitrary; existence of the solution is the solver's business) *)
+Theorem C14_potency_inverts_stiffness :
+  forall c0 c1 c2 c3 c4 c5 c6 c7 c8 c9 c10 c11 c12 c13 c14 c15 c16 c17 c18 c19 c20 m0 m1 m2 m3 m4 m5 x0 x1 x2 x3 x4 x5,
+  solves c0 c1 c2 c3 c4 c5 c6 c7 c8 c9 c10 c11 c12 c13 c14 c15 c16 c17 c18 c19 c20 m0 m1 m2 m3 m4 m5 x0 x1 x2 x3 x4 x5 ->
+  let '(d0, d1, d2, d3, d4, d5) := MT6c_D6 x0 x1 x2 x3 x4 x5 in
+  six_of (contract c0 c1 c2 c3 c4 c5 c6 c7 c8 c9 c10 c11 c12 c13 c14 c15 c16 c17 c18 c19 c20 (ten d0 d1 d2 d3 d4 d5))
+  = (m0, m1, m2, m3, m4, m5).
+Proof. exact potency_inverts_stiffness. Qed.
+Print Assumptions C14_potency_inverts_stiffness.
+
+(* ---- crack + double-couple: opening angle recovered, longitude in range (Poisson ratio: oracle run only) *)
+Theorem C14_cdc_opening_angle_partial : forall alpha nu, 0 <= alpha <= PI ->
+  fst (let '(g, d) := basic_cdc_GD alpha nu in GD_basic_cdc g d) = alpha.
+Proof. exact cdc_opening_angle_roundtrip. Qed.
+Print Assumptions C14_cdc_opening_angle_partial.
+
+Theorem C14_cdc_gamma_range : forall alpha nu, 0 <= alpha <= PI / 2 -> - (PI / 6) <= fst (basic_cdc_GD alpha nu) <= 0.
+Proof. exact cdc_gamma_range. Qed.
+Print Assumptions C14_cdc_gamma_range.
+
+(* non-vacuity: the hypotheses are met by ordinary sources *)
+Example C14_nonvacuous : 0 < 2 * 2 + 1 * 1 + (-1) * (-1) /\ - (PI / 6) <= 0 <= PI / 6 /\ - (PI / 2) < 0 < PI / 2.
+Proof. pose proof PI_RGT_0. repeat split; lra. Qed.
